@@ -193,6 +193,17 @@ FACT_PROBLEMS = [
     {'dims': {'l': 1, 'q': [2], 's': [2, 1]}, 'n': 2, 'p': 0, 'v': 2, 'mnl': 1, 'H': True},
     {'dims': {'l': 0, 'q': [1], 's': [0, 2]}, 'n': 2, 'p': 1, 'v': 3},
     {'dims': {'l': 2, 'q': [], 's': []}, 'n': 2, 'p': 0, 'v': 1, 'mnl': 2},
+    # two equality constraints (the equality block is a genuine matrix) with every cone kind
+    {'dims': {'l': 0, 'q': [3], 's': []}, 'n': 4, 'p': 2, 'v': 1},
+    {'dims': {'l': 1, 'q': [2], 's': [2]}, 'n': 4, 'p': 2, 'v': 2},
+    {'dims': {'l': 3, 'q': [], 's': []}, 'n': 4, 'p': 2, 'v': 0, 'H': True},
+    # box + arrow rows: G'W^-2 G has an arrow pattern, which CHOLMOD permutes (sparse storage)
+    {'dims': {'l': 14, 'q': [], 's': []}, 'n': 5, 'p': 2, 'v': 0, 'arrow': True},
+    {'dims': {'l': 17, 'q': [], 's': []}, 'n': 6, 'p': 2, 'v': 3, 'arrow': True},
+    # box + arrow + band + skip rows and equality rows with three nonzeros: a fill-reducing ordering that is not
+    # its own inverse (P and P' differ)
+    {'dims': {'l': 28, 'q': [], 's': []}, 'n': 7, 'p': 2, 'v': 0, 'pattern': True},
+    {'dims': {'l': 33, 'q': [], 's': []}, 'n': 8, 'p': 3, 'v': 1, 'pattern': True},
 ]
 
 
@@ -206,6 +217,25 @@ def _fact_data(pr):
         A = [[1.0 if j == i + 1 else 0.0 for j in range(n)] for i in range(p)]
         if p < n - 1:
             A = [[1.0 if j >= 1 else 0.0 for j in range(n)]][:p]
+    elif pr.get('pattern'):
+        rows = []
+        for i in range(n):
+            rows.append({i: 1.0}); rows.append({i: -1.0})
+        for i in range(1, n):
+            rows.append({0: 1.0, i: 1.0 + 0.25 * i})
+        for i in range(n - 2):
+            rows.append({i: 1.0, i + 2: -0.5 - 0.125 * i})
+        for i in range(0, n - 1, 2):
+            rows.append({i: 2.0, i + 1: -1.0})
+        rows = rows[:N] + [{(3 * k) % n: 1.0} for k in range(N - len(rows))]
+        assert len(rows) == N, (len(rows), N)
+        G = [[rows[i].get(j, 0.0) for i in range(N)] for j in range(n)]
+        acols = [(0, 3, 5), (1, 2, 6), (2, 4, 7)]
+        A = [[(1.0 + 0.5 * k + 0.25 * j) if j in [c % n for c in acols[k]] else 0.0 for j in range(n)] for k in range(p)]
+    elif pr.get('arrow'):
+        ar = solve.arrow_lp(n, v)
+        assert ar['dims'] == d and len(ar['A']) == p
+        G, A = ar['G'], ar['A']
     else:
         G = solve.gen_G(d, n, v)
         A = solve.gen_A(p, n, v)
